@@ -19,7 +19,7 @@ RULE = ("fault catalogue x valid base scenarios (forward/reversed, single/multi-
         "frame_duplicated_across_files, forcing_file_missing, grid_file_missing, no_start, no_stop, no_dt, "
         "stop_wrong_side, direction_flag_wrong, release_all_before, release_all_at_or_after_stop, "
         "release_without_position, release_file_missing, config_file_missing, section_missing(time|forcing|tracker|"
-        "release|output), subgrid_illegal, bad_period; each kind has an applicability predicate and an effect proof "
+        "release|output), subgrid_illegal, bad_period, frames_unsorted_in_file, frame_time_repeated_in_file; each kind has an applicability predicate and an effect proof "
         "computed on the scenario (the fault really makes the set-up impossible). Quick: one seeded kind per base "
         "plus 20 % combinations of 2-3; thorough: every kind on every base, then combinations. Oracle: configure() "
         "or Model() raises (any exception type) and no output record exists afterwards; the unfaulted base must "
@@ -31,11 +31,12 @@ COMPONENTS = {"real": ["configure", "Model.__init__ (all module constructors)", 
 ASSUMPTIONS = ["any exception type or exit code during configure()/Model() counts as refusal",
                "an output file without records may exist after a refusal"]
 TIERS = {"quick": dict(runs=700, budget_s=45, shrink=100),
-         "thorough": dict(runs=20 * 2000 + 20000, budget_s=900, shrink=200)}
+         "thorough": dict(runs=22 * 2000 + 20000, budget_s=900, shrink=200)}
 KINDS = ["forcing_starts_late", "forcing_ends_early", "frames_out_of_order", "frame_duplicated_across_files",
          "forcing_file_missing", "grid_file_missing", "no_start", "no_stop", "no_dt", "stop_wrong_side",
          "direction_flag_wrong", "release_all_before", "release_all_at_or_after_stop", "release_without_position",
-         "release_file_missing", "config_file_missing", "section_missing", "subgrid_illegal", "bad_period"]
+         "release_file_missing", "config_file_missing", "section_missing", "subgrid_illegal", "bad_period",
+         "frames_unsorted_in_file", "frame_time_repeated_in_file"]
 REQUIRED_PROBES = ["applied:" + k for k in KINDS] + ["control_started", "combination"]
 
 PROFILE = gen.profile(
@@ -47,14 +48,14 @@ PROFILE = gen.profile(
 
 def generate(seed: int, tier: str, idx: int) -> dict:
     s = stream(seed, "c20")
-    if tier == "thorough" and idx % 20 != 19 and idx < 20 * 2000:
-        idx = idx - idx // 20        # 19 of every 20 cases walk the kinds x bases table, the 20th is a combination
+    if tier == "thorough" and idx % 22 != 21 and idx < 22 * 2000:
+        idx = idx - idx // 22        # 21 of every 22 cases walk the kinds x bases table, the 22nd is a combination
         # every kind on every base: base b = idx // 19 shares its seed across the 19 kinds
         from ladsim.rng import derive
 
-        b = idx // 19
+        b = idx // 21
         sc = gen.gen_scenario(derive(int(os.environ.get("VERIF_SEED", "1")), "C20base", b), PROFILE)
-        kinds = [KINDS[idx % 19]]
+        kinds = [KINDS[idx % 21]]
     else:
         sc = gen.gen_scenario(seed, PROFILE)
         if s.chance(0.2) or tier == "thorough":
@@ -107,6 +108,7 @@ class Applied:
         self.release_columns = None
         self.no_config = False
         self.dup_frames = None
+        self.inner = None
 
 
 def window(sc):
@@ -154,6 +156,19 @@ def apply_faults(sc):
             if len(part) >= 2 and ap.dup_frames is None:
                 i = int(f["r"] * (len(part) - 1))
                 ap.dup_frames = (i + 1, part[i][-1])         # file i+1 starts with a copy of the last frame of file i
+                ap.kinds.append(k)
+        elif k in ("frames_unsorted_in_file", "frame_time_repeated_in_file"):
+            part = world.frame_partition(s2)
+            big = [i for i, pp in enumerate(part) if len(pp) >= 2]
+            if big and ap.inner is None:
+                fi = big[int(f["r"] * len(big)) % len(big)]
+                frames = list(part[fi])
+                j = int(f["r"] * 1000) % (len(frames) - 1)
+                if k == "frames_unsorted_in_file":
+                    frames[j], frames[j + 1] = frames[j + 1], frames[j]      # two neighbouring frames swapped
+                else:
+                    frames[j + 1] = frames[j]                                 # the same time (and data) twice
+                ap.inner = (fi, frames)
                 ap.kinds.append(k)
         elif k == "forcing_file_missing":
             ap.file_ops.append(("delete_forcing", None))
@@ -251,6 +266,12 @@ def run_setup(sc, ap: Applied | None, d: Path, res: Result):
             fi, frame = ap.dup_frames
             names, part = world.forcing_file_names(sc), world.frame_partition(sc)
             world.write_forcing_file(d / names[fi], sc, [frame, *part[fi]])
+        if ap.inner is not None:
+            fi, frames = ap.inner
+            names = world.forcing_file_names(sc)
+            if ap.dup_frames is not None and ap.dup_frames[0] == fi:
+                frames = [ap.dup_frames[1], *frames]
+            world.write_forcing_file(d / names[fi], sc, frames)
         if ap.release_columns is not None:
             _rewrite_release(sc, d, ap.release_columns)
         for op, arg in ap.file_ops:
